@@ -27,13 +27,13 @@ type RuleOp struct {
 	Kind string `json:"kind"` // PDR FAR QER URR BAR
 	ID   uint32 `json:"id"`
 	// PDR
-	Prec   uint32   `json:"prec,omitempty"`
-	SrcIf  uint8    `json:"src_if,omitempty"`
-	UEIP   string   `json:"ueip,omitempty"`
-	FAR    uint32   `json:"far,omitempty"`
-	QERs   []uint32 `json:"qers,omitempty"`
-	URRs   []uint32 `json:"urrs,omitempty"`
-	OHR    bool     `json:"ohr,omitempty"`
+	Prec  uint32   `json:"prec,omitempty"`
+	SrcIf uint8    `json:"src_if,omitempty"`
+	UEIP  string   `json:"ueip,omitempty"`
+	FAR   uint32   `json:"far,omitempty"`
+	QERs  []uint32 `json:"qers,omitempty"`
+	URRs  []uint32 `json:"urrs,omitempty"`
+	OHR   bool     `json:"ohr,omitempty"`
 	// FAR
 	Action    uint16 `json:"action,omitempty"`
 	HasAction bool   `json:"has_action,omitempty"`
@@ -46,7 +46,7 @@ type RuleOp struct {
 	Method uint8  `json:"method,omitempty"` // bit0 DURAT, bit1 VOLUM, bit2 EVENT
 	MNOP   bool   `json:"mnop,omitempty"`
 	Trig   uint32 `json:"trig,omitempty"`
-	Period uint32 `json:"period,omitempty"` // seconds
+	Period uint32 `json:"period,omitempty"`  // seconds
 	NoMeas bool   `json:"no_meas,omitempty"` // update URR without measurement method/info
 	NoInfo bool   `json:"no_info,omitempty"` // URR without the Measurement Information IE
 }
@@ -61,10 +61,10 @@ type Op struct {
 	CP   uint64 `json:"cp,omitempty"` // CP SEID chosen by the peer (est)
 	Seq  uint32 `json:"seq,omitempty"`
 	// est / assoc variations
-	NoNodeID bool `json:"no_node_id,omitempty"`
-	NoFSEID  bool `json:"no_fseid,omitempty"`
-	Takeover bool `json:"takeover,omitempty"` // mod carries Node ID = Node
-	Rules []RuleOp `json:"rules,omitempty"`
+	NoNodeID bool     `json:"no_node_id,omitempty"`
+	NoFSEID  bool     `json:"no_fseid,omitempty"`
+	Takeover bool     `json:"takeover,omitempty"` // mod carries Node ID = Node
+	Rules    []RuleOp `json:"rules,omitempty"`
 	// report (injected through NotifySessReport, as the netlink listener / periodic server do)
 	URRs    []uint32 `json:"urrs,omitempty"`
 	Trig    uint32   `json:"trig,omitempty"` // usage report trigger flags
@@ -73,12 +73,12 @@ type Op struct {
 	Action  uint16   `json:"action,omitempty"`
 	Payload []byte   `json:"payload,omitempty"`
 	// rsp: answer the Which-th oldest outstanding Session Report Request seen at socket Peer
-	Which    int    `json:"which,omitempty"`
-	SEID0    bool   `json:"seid0,omitempty"`
-	SeqDelta int    `json:"seq_delta,omitempty"` // != 0: answer with a wrong sequence number
-	From     int    `json:"from,omitempty"`      // socket the answer is sent from (default: Peer)
-	UseFrom  bool   `json:"use_from,omitempty"`
-	Dup      bool   `json:"dup,omitempty"`       // keep the request outstanding in the harness (answer again later)
+	Which    int  `json:"which,omitempty"`
+	SEID0    bool `json:"seid0,omitempty"`
+	SeqDelta int  `json:"seq_delta,omitempty"` // != 0: answer with a wrong sequence number
+	From     int  `json:"from,omitempty"`      // socket the answer is sent from (default: Peer)
+	UseFrom  bool `json:"use_from,omitempty"`
+	Dup      bool `json:"dup,omitempty"` // keep the request outstanding in the harness (answer again later)
 	// expire
 	TrID string `json:"tr_id,omitempty"`
 }
@@ -231,11 +231,11 @@ type SRR struct {
 
 // Runner executes symbolic ops against a Stack.
 type Runner struct {
-	S        *Stack
-	D        *ModelDriver // nil when a real driver is used
-	Sess     []SessRef
-	seq      map[int]uint32
-	Pending  map[int][]SRR // outstanding report requests per socket
+	S       *Stack
+	D       *ModelDriver // nil when a real driver is used
+	Sess    []SessRef
+	seq     map[int]uint32
+	Pending map[int][]SRR // outstanding report requests per socket
 }
 
 func NewRunner(s *Stack, d *ModelDriver) *Runner {
@@ -244,15 +244,15 @@ func NewRunner(s *Stack, d *ModelDriver) *Runner {
 
 // Obs is what one step produced.
 type Obs struct {
-	Sent   []byte
+	Sent    []byte
 	SentSeq uint32
-	Rx     map[int][]Datagram        // per socket reference
-	Msgs   map[int][]message.Message // parsed
-	Calls  []Call
-	Dead   *CrashInfo
-	Stuck  bool
+	Rx      map[int][]Datagram        // per socket reference
+	Msgs    map[int][]message.Message // parsed
+	Calls   []Call
+	Dead    *CrashInfo
+	Stuck   bool
 	NewSess int // index of the session created by this step, or -1
-	SRRs   []SRR
+	SRRs    []SRR
 	Skipped string // op could not be executed (e.g. unresolved reference)
 }
 
@@ -366,10 +366,10 @@ func (r *Runner) Step(op Op) *Obs {
 		} else {
 			for i, u := range op.URRs {
 				reps = append(reps, report.USAReport{
-					URRID:       u,
-					USARTrigger: report.UsageReportTrigger{Flags: op.Trig},
-					StartTime:   time.Unix(1700000000, 0),
-					EndTime:     time.Unix(1700000100, 0),
+					URRID:        u,
+					USARTrigger:  report.UsageReportTrigger{Flags: op.Trig},
+					StartTime:    time.Unix(1700000000, 0),
+					EndTime:      time.Unix(1700000100, 0),
 					VolumMeasure: report.VolumeMeasure{TotalVolume: uint64(100 + i), UplinkVolume: 40, DownlinkVolume: uint64(60 + i)},
 				})
 			}
@@ -580,11 +580,11 @@ const (
 // UsageDetail is a fully decoded usage-report IE.
 type UsageDetail struct {
 	UsageRep
-	Start, End       *time.Time
-	Vol              *ie.VolumeMeasurementFields
-	HasDur           bool
-	Unknown          []uint16 // child IE types not understood by this decoder
-	Dup              []uint16 // child IE types present more than once
+	Start, End *time.Time
+	Vol        *ie.VolumeMeasurementFields
+	HasDur     bool
+	Unknown    []uint16 // child IE types not understood by this decoder
+	Dup        []uint16 // child IE types present more than once
 }
 
 // UsageDetails decodes every usage report of a carrier message.
